@@ -37,6 +37,7 @@ def warm():
     cf_mc(wd)
     cf.gen(wd, "A3", 3, 2, 2, False)
     cf.gen(wd, "A3", 3, 3, 2, False)
+    cf.gen(wd, "A3", 3, 1, 2, False, chains=True)
     cf.gen(wd, "A4o", 4, 2, 2, False)
 
 
@@ -44,10 +45,16 @@ def run(tier: str) -> int:
     out = Outcome(PID, tier)
     wd = workdir(PID)
     mc = cf_mc(wd)[0]
-    items, g = cf.event_family(wd, tier, with_triples=True)
+    items, g = cf.event_family(wd, tier, with_triples=True, clash=20 if tier == "quick" else 100)
     rng = random.Random(1800 + seed())
+    chains = cf.gen(wd, "A3", 3, 1, 2, False, chains=True)[0]["chains"]
     for it in items:  # C18 holds on the fixed family: seeded three-atom events are added on top
         it["evs"] = it["evs"] + rng.sample(it["triples"], min(len(it["triples"]), 10 if tier == "quick" else 40))
+        # a fixed slice of the three-world events with two clashing atoms on one variable (chains of Lemma-25 merges)
+        it["evs"] = it["evs"] + [e for e in it.pop("clash") if e not in it["evs"]]
+        # every merge-chain event of this graph (CF.tla MergeChainEvents: one variable in three worlds that differ in an
+        # irrelevant subscript, atoms on two of the copies, a third atom in the remaining world)
+        it["evs"] = it["evs"] + [e for e in chains[cf.gkey(it["g"])] if e not in it["evs"]]
     extra4 = {}
     if True:
         # C18 holds on the fixed family, so seeded 4-node inputs are added (sparser graphs keep family F tractable)
@@ -65,7 +72,8 @@ def run(tier: str) -> int:
     cov = cf.coverage(vs, by_id, st, g,
                       "one record = make_counterfactual_graph(G, event) for a TLC-generated conjunction of 1-3 atoms 'V under "
                       "<= 2 signed subscripts takes a signed value' over a 3-node ADMG (all single atoms, a graph-dependent "
-                      "slice of all pairs, seeded triples); TLC evaluates P(event) and P(relabelled event) in functional models "
+                      "slice of all pairs, seeded triples, a fixed slice of the three-world triples with two clashing atoms on one "
+                      "variable, every merge-chain event of the graph (MergeChainEvents in CF.tla)); TLC evaluates P(event) and P(relabelled event) in functional models "
                       "with shared noise on all 8 base assignments and checks acyclicity / ancestrality / membership on the "
                       "returned graph; non-trivial = distinct (graph, event) on a graph with a bidirected edge",
                       {"design_mc": [mc], **extra4})
